@@ -21,9 +21,11 @@ import (
 	"fmt"
 	"net/http/httptest"
 	"reflect"
+	"runtime"
 	"runtime/debug"
 	"sort"
 	"strings"
+	"time"
 
 	apifu "github.com/ccbrown/api-fu"
 	"github.com/ccbrown/api-fu/graphql"
@@ -39,8 +41,14 @@ import (
 // ---------------------------------------------------------------------------------------------
 
 type edgeT struct {
-	Key  interface{} // int or string: the cursor value
+	Key  interface{} // int, string or apifu.TimeBasedCursor: the cursor value
 	Node int
+}
+
+// badCursor is a cursor type msgpack cannot encode (SerializeCursor fails for every value).
+type badCursor struct {
+	K int
+	C chan int
 }
 
 func keyLess(a, b interface{}) bool {
@@ -49,6 +57,10 @@ func keyLess(a, b interface{}) bool {
 		return x < b.(int)
 	case string:
 		return x < b.(string)
+	case apifu.TimeBasedCursor:
+		return x.LessThan(b.(apifu.TimeBasedCursor))
+	case badCursor:
+		return x.K < b.(badCursor).K
 	}
 	panic("bad key type")
 }
@@ -71,6 +83,10 @@ func keySexp(k interface{}) sexp.Node {
 		return zint(x)
 	case string:
 		return sexp.Str(x)
+	case apifu.TimeBasedCursor:
+		return sexp.T("time", zint(int(x.Nano)), sexp.Str(x.Id))
+	case badCursor:
+		return zint(x.K)
 	}
 	panic("bad key type")
 }
@@ -99,8 +115,11 @@ func sortedEdges(es []edgeT) []edgeT {
 }
 
 func cursorType(kind string) reflect.Type {
-	if kind == "int" {
+	switch kind {
+	case "int":
 		return reflect.TypeOf(0)
+	case "time":
+		return reflect.TypeOf(apifu.TimeBasedCursor{})
 	}
 	return reflect.TypeOf("")
 }
@@ -120,6 +139,11 @@ type world struct {
 	// promise that delivers an error), ResolveTotalCount fails
 	fail       int
 	totalFails bool
+	// TimeBasedConnection: what the EdgeGetter was asked (limit) and what it answered
+	getterLimits  []int
+	getterEdges   []edgeT
+	getterAnswers []sexp.Node // ((sync|promise) edges) per call, in call order
+	mixed        bool // the getter answers some calls directly and some through a promise
 }
 
 var errApp = fmt.Errorf("the application failed")
@@ -170,11 +194,18 @@ func (w *world) window(after, before interface{}, limit int) []edgeT {
 	return out
 }
 
+func lessFor(k apiKey) func(a, b interface{}) bool { return keyLess }
+
 type apiKey struct {
-	kind    string
-	all     bool
-	promise bool
+	kind     string
+	all      bool
+	promise  bool
+	dir      int  // 0 bidirectional, 1 forward-only, 2 backward-only
+	serFails bool // cursor values of a type msgpack cannot encode
+	timeconn bool // apifu.TimeBasedConnection instead of apifu.Connection (kind must be "time")
 }
+
+var dirNames = []string{"bidi", "fwd-only", "bwd-only"}
 
 var apis = map[apiKey]*apifu.API{}
 
@@ -194,30 +225,92 @@ func getAPI(k apiKey) *apifu.API {
 		}
 		return v, nil
 	}
-	cc := &apifu.ConnectionConfig{
-		NamePrefix: "Thing",
-		CursorType: cursorType(k.kind),
-		EdgeCursor: func(edge interface{}) interface{} { return edge.(edgeT).Key },
-		EdgeFields: map[string]*graphql.FieldDefinition{
-			"node": {
-				Type: graphql.IntType,
-				Resolve: func(ctx graphql.FieldContext) (interface{}, error) {
-					return ctx.Object.(edgeT).Node, nil
-				},
+	edgeFields := map[string]*graphql.FieldDefinition{
+		"node": {
+			Type: graphql.IntType,
+			Resolve: func(ctx graphql.FieldContext) (interface{}, error) {
+				return ctx.Object.(edgeT).Node, nil
 			},
 		},
+	}
+	if k.timeconn {
+		// the library's own struct-cursor connection; its ResolveEdges asks the getter below once per
+		// range query (C16 owns those) and concatenates the answers, which may be slices or promises
+		tc := &apifu.TimeBasedConnectionConfig{
+			NamePrefix: "Thing",
+			EdgeCursor: func(edge interface{}) apifu.TimeBasedCursor { return edge.(edgeT).Key.(apifu.TimeBasedCursor) },
+			EdgeFields: edgeFields,
+			EdgeGetter: func(ctx graphql.FieldContext, minTime, maxTime time.Time, limit int) (interface{}, error) {
+				var in []edgeT
+				for _, e := range sortedEdges(cur.edges) {
+					t := e.Key.(apifu.TimeBasedCursor).Time()
+					if !t.Before(minTime) && !t.After(maxTime) {
+						in = append(in, e)
+					}
+				}
+				if limit > 0 && limit < len(in) {
+					in = in[:limit]
+				} else if limit < 0 && -limit < len(in) {
+					in = in[len(in)+limit:]
+				}
+				cur.getterLimits = append(cur.getterLimits, limit)
+				cur.getterEdges = append(cur.getterEdges, in...)
+				if k.promise && (!cur.mixed || cur.r.Bool()) {
+					cur.getterAnswers = append(cur.getterAnswers, sexp.L(sexp.Sym("promise"), edgesSexp(in)))
+					return apifu.Go(ctx.Context, func() (interface{}, error) { return in, nil }), nil
+				}
+				cur.getterAnswers = append(cur.getterAnswers, sexp.L(sexp.Sym("sync"), edgesSexp(in)))
+				if len(in) == 0 && cur.r.Bool() {
+					return nil, nil
+				}
+				return in, nil
+			},
+			ResolveTotalCount: func(ctx graphql.FieldContext) (interface{}, error) { return len(cur.edges), nil },
+		}
+		cfg := &apifu.Config{}
+		cfg.AddQueryField("connection", apifu.TimeBasedConnection(tc))
+		a, err := apifu.NewAPI(cfg)
+		if err != nil {
+			panic(err)
+		}
+		apis[k] = a
+		return a
+	}
+	// every generic connection also implements a ConnectionInterface; requests may select through it
+	iface := apifu.ConnectionInterface(&apifu.ConnectionInterfaceConfig{
+		NamePrefix:    "Iface",
+		EdgeFields:    map[string]*graphql.FieldDefinition{"node": {Type: graphql.IntType}},
+		HasTotalCount: true,
+	})
+	cc := &apifu.ConnectionConfig{
+		NamePrefix:            "Thing",
+		ImplementedInterfaces: []*graphql.InterfaceType{iface},
+		Direction:             apifu.ConnectionDirection(k.dir),
+		CursorType: cursorType(k.kind),
+		EdgeCursor: func(edge interface{}) interface{} { return edge.(edgeT).Key },
+		EdgeFields: edgeFields,
+	}
+	if k.serFails {
+		cc.CursorType = reflect.TypeOf(badCursor{})
+		cc.EdgeCursor = func(edge interface{}) interface{} { return badCursor{K: edge.(edgeT).Key.(int)} }
 	}
 	if k.all {
 		cc.ResolveAllEdges = func(ctx graphql.FieldContext) (interface{}, func(a, b interface{}) bool, error) {
 			v, err := deliver(ctx, append([]edgeT(nil), cur.edges...))
-			return v, keyLess, err
+			return v, lessFor(k), err
 		}
 	} else {
 		cc.ResolveEdges = func(ctx graphql.FieldContext, after, before interface{}, limit int) (interface{}, func(a, b interface{}) bool, error) {
+			if b, ok := after.(badCursor); ok {
+				after = b.K
+			}
+			if b, ok := before.(badCursor); ok {
+				before = b.K
+			}
 			win := cur.window(after, before, limit)
 			cur.calls = append(cur.calls, sexp.L(optKeySexp(after), optKeySexp(before), sexp.Int(limit), edgesSexp(win)))
 			v, err := deliver(ctx, win)
-			return v, keyLess, err
+			return v, lessFor(k), err
 		}
 		cc.ResolveTotalCount = func(ctx graphql.FieldContext) (interface{}, error) {
 			if cur.totalFails {
@@ -297,6 +390,7 @@ type request struct {
 	first, last   countArg
 	after, before cursorArg
 	sel           selection
+	iface         bool // select everything through fragments on the ConnectionInterface / its edge interface
 }
 
 func (q request) document() (string, map[string]interface{}) {
@@ -325,7 +419,9 @@ func (q request) document() (string, map[string]interface{}) {
 	curArg("after", q.after)
 	curArg("before", q.before)
 	var sel []string
-	if q.sel.edges {
+	if q.sel.edges && q.iface {
+		sel = append(sel, "edges { ... on IfaceEdge { cursor node } }")
+	} else if q.sel.edges {
 		sel = append(sel, "edges { cursor node }")
 	}
 	if q.sel.pageInfo {
@@ -341,6 +437,9 @@ func (q request) document() (string, map[string]interface{}) {
 	a := ""
 	if len(args) > 0 {
 		a = "(" + strings.Join(args, ", ") + ")"
+	}
+	if q.iface {
+		return d + " { connection" + a + " { ... on IfaceConnection { " + strings.Join(sel, " ") + " } } }", vars
 	}
 	return d + " { connection" + a + " { " + strings.Join(sel, " ") + " } }", vars
 }
@@ -463,6 +562,26 @@ func cursorTable(kind string, emitted []string) sexp.Node {
 	return sexp.L(l...)
 }
 
+// recordedCalls: the ResolveEdges calls of the request.  A TimeBasedConnection's ResolveEdges is
+// internal to api-fu; its call is reconstructed from what can be observed: limit = the limit of
+// the last range query (the "middle" one), after / before = what the real DeserializeCursor makes
+// of the arguments, answer = the concatenation of the getter's answers.
+func (w *world) recordedCalls(k apiKey, q request) []sexp.Node {
+	if !k.timeconn {
+		return w.calls
+	}
+	if len(w.getterLimits) == 0 {
+		return nil
+	}
+	dec := func(c cursorArg) interface{} {
+		if c.mode != 2 || c.str == "" {
+			return nil
+		}
+		return apifu.DeserializeCursor(cursorType("time"), c.str)
+	}
+	return []sexp.Node{sexp.L(optKeySexp(dec(q.after)), optKeySexp(dec(q.before)), sexp.Int(w.getterLimits[len(w.getterLimits)-1]), edgesSexp(w.getterEdges))}
+}
+
 type setup struct {
 	key        apiKey
 	edges      []edgeT
@@ -476,7 +595,11 @@ func (s setup) header() []sexp.Node {
 	if s.key.all {
 		mode = "all"
 	}
+	if s.key.timeconn {
+		mode = "timeconn"
+	}
 	return []sexp.Node{
+		sexp.T("direction", sexp.Sym(dirNames[s.key.dir])), sexp.T("ser-fails", sexp.Bool(s.key.serFails)),
 		sexp.T("kind", sexp.Sym(s.key.kind)), sexp.T("mode", sexp.Sym(mode)), sexp.T("promise", sexp.Bool(s.key.promise)),
 		sexp.T("edges", edgesSexp(s.edges)), sexp.T("total", sexp.Int(len(s.edges))),
 		sexp.T("app-fails", sexp.Sym([]string{"no", "sync", "async"}[s.fail]), sexp.Bool(s.totalFails)),
@@ -484,24 +607,30 @@ func (s setup) header() []sexp.Node {
 }
 
 func (s setup) world(r *rng.R) *world {
-	return &world{edges: s.edges, policy: s.policy, r: r, fail: s.fail, totalFails: s.totalFails}
+	return &world{edges: s.edges, policy: s.policy, r: r, fail: s.fail, totalFails: s.totalFails, mixed: s.policy%2 == 1}
 }
 
 func reqFields(q request, calls []sexp.Node, o observed) []sexp.Node {
 	return []sexp.Node{
 		sexp.T("sel", sexp.Bool(q.sel.edges), sexp.Bool(q.sel.pageInfo), sexp.Bool(q.sel.total)),
+		sexp.T("given", sexp.Bool(q.first.mode != 0), sexp.Bool(q.last.mode != 0), sexp.Bool(q.after.mode != 0), sexp.Bool(q.before.mode != 0)),
 		sexp.T("first", q.first.sexp()), sexp.T("last", q.last.sexp()),
 		sexp.T("after", q.after.sexp()), sexp.T("before", q.before.sexp()),
 		sexp.T("after-pos", q.after.posSexp()), sexp.T("before-pos", q.before.posSexp()),
 		sexp.T("calls", sexp.L(calls...)), sexp.T("obs", o.node),
+		sexp.T("getter-answers", sexp.L(cur.getterAnswers...)),
 	}
 }
 
 func connCase(s setup, q request, r *rng.R) sexp.Node {
 	api := getAPI(s.key)
 	cur = s.world(r)
+	if !s.key.timeconn && r.Chance(1, 5) {
+		q.iface = true
+	}
 	o := serve(api, q)
-	fields := append(s.header(), reqFields(q, cur.calls, o)...)
+	fields := append(s.header(), reqFields(q, cur.recordedCalls(s.key, q), o)...)
+	fields = append(fields, sexp.T("via-interface", sexp.Bool(q.iface)))
 	fields = append(fields, sexp.T("cursors", cursorTable(s.key.kind, o.emitted)))
 	return sexp.T("conn", fields...)
 }
@@ -521,7 +650,7 @@ func walkCase(s setup, forward bool, n int, r *rng.R) sexp.Node {
 		cur = s.world(r)
 		o := serve(api, q)
 		emitted = append(emitted, o.emitted...)
-		steps = append(steps, sexp.T("step", reqFields(q, cur.calls, o)...))
+		steps = append(steps, sexp.T("step", reqFields(q, cur.recordedCalls(s.key, q), o)...))
 		if !o.isData {
 			break
 		}
@@ -619,8 +748,11 @@ func directCase(edges []edgeT, after, before, first, last *int) sexp.Node {
 // ---------------------------------------------------------------------------------------------
 
 func kindOf(key interface{}) string {
-	if _, ok := key.(int); ok {
+	switch key.(type) {
+	case int:
 		return "int"
+	case apifu.TimeBasedCursor:
+		return "time"
 	}
 	return "str"
 }
@@ -628,17 +760,98 @@ func kindOf(key interface{}) string {
 func codecCase(key interface{}) sexp.Node {
 	s, err := apifu.SerializeCursor(key)
 	if err != nil {
-		return sexp.T("codec-serialize-failed", sexp.Str(err.Error()))
+		return sexp.T("codec", sexp.T("kind", sexp.Sym(kindOf(key))), sexp.T("value", keySexp(key)),
+			sexp.T("serialized", sexp.None()), sexp.T("decoded", sexp.None()))
 	}
 	return sexp.T("codec", sexp.T("kind", sexp.Sym(kindOf(key))), sexp.T("value", keySexp(key)),
-		sexp.T("serialized", sexp.Str(s)), sexp.T("decoded", realDecode(kindOf(key), s)))
+		sexp.T("serialized", sexp.Some(sexp.Str(s))), sexp.T("decoded", realDecode(kindOf(key), s)))
 }
 
+// decodeCase runs the real DeserializeCursor on an arbitrary string, under recover, and measures
+// how much heap the call allocated (the process also runs under debug.SetMemoryLimit).
 func decodeCase(kind string, input string) sexp.Node {
-	return sexp.T("decode", sexp.T("kind", sexp.Sym(kind)), sexp.T("input", sexp.Str(input)), sexp.T("result", realDecode(kind, input)))
+	var m0, m1 runtime.MemStats
+	runtime.ReadMemStats(&m0)
+	res := realDecode(kind, input)
+	runtime.ReadMemStats(&m1)
+	return sexp.T("decode", sexp.T("kind", sexp.Sym(kind)), sexp.T("input", sexp.Str(input)), sexp.T("result", res),
+		sexp.T("alloc", sexp.Int(int(m1.TotalAlloc-m0.TotalAlloc))))
+}
+
+// codeProbes: for one first byte c of a msgpack document, the documents that exercise the decoder's
+// and Skip's handling of that code: alone, with every plausible length field truncated, with length
+// fields claiming 2^32-1 / 2^16-1 / 255 elements or bytes, with a correct small payload, nested in
+// containers, and placed where the struct decoder skips values (unknown map key, extra array element).
+func codeProbes(c byte) [][]byte {
+	ff := []byte{0xff, 0xff, 0xff, 0xff}
+	small := []byte{0, 0, 0, 2, 1, 2, 3, 4, 5, 6, 7, 8, 9, 10, 11, 12, 13, 14, 15, 16, 17, 18}
+	var docs [][]byte
+	add := func(b ...byte) { docs = append(docs, append([]byte(nil), b...)) }
+	add(c)
+	for n := 1; n <= 4; n++ {
+		add(append([]byte{c}, ff[:n]...)...) // truncated / maximal length field
+	}
+	add(append(append([]byte{c}, ff...), small...)...) // claims 2^32-1 (or 2^16-1, 255), delivers 22 bytes
+	add(append([]byte{c}, small...)...)                // 4-byte length 2 / 2-byte length 0 / 1-byte length 0 ...
+	add(append([]byte{c, 2}, small...)...)
+	add(append([]byte{c, 0, 2}, small...)...)
+	add(c, 0xa1, 'a', 1, 0xa1, 'b', 2)              // a map / array of 1-2 with well-formed elements
+	add(c, 0xa4, 'N', 'a', 'n', 'o', 5, 0xa2, 'I', 'd', 0xa1, 'z') // the struct's own keys
+	add(c, 7, 0xa1, 'z', 0xc0, 0xc0)                 // array form: Nano, Id, extras
+	var out [][]byte
+	for _, d := range docs {
+		out = append(out, d)
+		out = append(out, append([]byte{0x81, 0xa1, 'x'}, d...))                 // struct: unknown key, value skipped
+		out = append(out, append([]byte{0x93, 5, 0xa1, 'i'}, d...))              // struct as array: extra element skipped
+		out = append(out, append([]byte{0x82, 0xa1, 'x', 0x92, 0x91}, d...))     // skipped value nested in arrays
+		out = append(out, append([]byte{0x81, 0xa1, 'x', 0xdf, 0xff, 0xff, 0xff, 0xff}, d...)) // ... in a map32 claiming 2^32-1 pairs
+	}
+	return out
 }
 
 var b64 = base64.RawURLEncoding
+
+// ---------------------------------------------------------------------------------------------
+// cost: what ValidateCost (default field cost 1) computes for one connection request
+// ---------------------------------------------------------------------------------------------
+
+var costSchemas = map[int]*graphql.Schema{}
+
+func costSchema(dir int) *graphql.Schema {
+	if s, ok := costSchemas[dir]; ok {
+		return s
+	}
+	field := apifu.Connection(&apifu.ConnectionConfig{
+		NamePrefix: "Thing",
+		Direction:  apifu.ConnectionDirection(dir),
+		CursorType: reflect.TypeOf(0),
+		EdgeCursor: func(edge interface{}) interface{} { return edge.(edgeT).Key },
+		EdgeFields: map[string]*graphql.FieldDefinition{"node": {Type: graphql.IntType, Resolve: func(ctx graphql.FieldContext) (interface{}, error) { return 0, nil }}},
+		ResolveAllEdges: func(ctx graphql.FieldContext) (interface{}, func(a, b interface{}) bool, error) {
+			return []edgeT{}, keyLess, nil
+		},
+	})
+	s, err := graphql.NewSchema(&graphql.SchemaDefinition{Query: &graphql.ObjectType{Name: "Query", Fields: map[string]*graphql.FieldDefinition{"connection": field}}})
+	if err != nil {
+		panic(err)
+	}
+	costSchemas[dir] = s
+	return s
+}
+
+func costCase(dir int, q request) sexp.Node {
+	doc, _ := q.document()
+	var cost int
+	_, errs := graphql.ParseAndValidate(doc, costSchema(dir), nil, graphql.ValidateCost("", nil, -1, &cost, graphql.FieldCost{Resolver: 1}))
+	obs := sexp.None()
+	if len(errs) == 0 {
+		obs = sexp.Some(sexp.Int(cost))
+	}
+	return sexp.T("cost", sexp.T("direction", sexp.Sym(dirNames[dir])),
+		sexp.T("given", sexp.Bool(q.first.mode != 0), sexp.Bool(q.last.mode != 0), sexp.Bool(false), sexp.Bool(false)),
+		sexp.T("first", q.first.sexp()), sexp.T("last", q.last.sexp()),
+		sexp.T("sel", sexp.Bool(q.sel.edges), sexp.Bool(q.sel.pageInfo), sexp.Bool(q.sel.total)), sexp.T("obs", obs))
+}
 
 // hostile cursor strings.  ascii: only strings that survive a JSON round trip unchanged.
 func hostile(r *rng.R, kind string, ascii bool) string {
@@ -646,6 +859,9 @@ func hostile(r *rng.R, kind string, ascii bool) string {
 	randKey := func() interface{} {
 		if kind == "int" {
 			return randInt(r)
+		}
+		if kind == "time" {
+			return apifu.TimeBasedCursor{Nano: int64(randInt(r)), Id: randString(r, 12)}
 		}
 		return randString(r, 40)
 	}
@@ -678,7 +894,39 @@ func hostile(r *rng.R, kind string, ascii bool) string {
 		binary.BigEndian.PutUint64(b, v)
 		return b[8-n:]
 	}
-	switch r.Intn(14) {
+	switch r.Intn(17) {
+	case 14: // a msgpack document built from the per-code probes
+		return b64.EncodeToString(rng.Pick(r, codeProbes(byte(r.Intn(256)))))
+	case 15: // nested containers, shallow to deep, ending in anything
+		d := rng.Pick(r, []int{1, 2, 3, 10, 100, 1000})
+		b := []byte{0x81, 0xa1, 'x'}
+		for i := 0; i < d; i++ {
+			b = append(b, rng.Pick(r, []byte{0x91, 0x81, 0x92, 0xdc, 0xdd, 0xde, 0xdf}))
+			if r.Chance(1, 4) {
+				b = append(b, randBytes(r.Intn(5))...)
+			}
+		}
+		return b64.EncodeToString(append(b, randBytes(r.Intn(4))...))
+	case 16: // the struct in its three accepted shapes with a field replaced
+		id := randString(r, 6)
+		m := []byte{0x82, 0xa4, 'N', 'a', 'n', 'o', 0xd3, 0, 0, 0, 0, 0, 0, 0, byte(r.Intn(256)), 0xa2, 'I', 'd', 0xa0 | byte(len(id))}
+		m = append(m, id...)
+		switch r.Intn(6) {
+		case 0:
+			m[0] = rng.Pick(r, []byte{0x80, 0x81, 0x83, 0x8f, 0xc0})
+		case 1:
+			m = append([]byte{0xde, 0, 2}, m[1:]...)
+		case 2:
+			m = append([]byte{0xdf, 0, 0, 0, byte(r.Intn(4))}, m[1:]...)
+		case 3:
+			m = append([]byte{rng.Pick(r, []byte{0x90, 0x91, 0x92, 0x93, 0x9f}), byte(r.Intn(128)), 0xa0 | byte(len(id))}, id...)
+			m = append(m, randBytes(r.Intn(6))...)
+		case 4:
+			m[2+r.Intn(4)] ^= 0x20 // another key: the value is skipped
+		default:
+			m = append(m[:6], append([]byte{rng.Pick(r, []byte{0xcc, 0xd0, 0xc0, 0xca, 0xa1})}, m[7:]...)...)
+		}
+		return b64.EncodeToString(m)
 	case 0: // random characters of the alphabet
 		n := r.Intn(16)
 		b := make([]byte, n)
@@ -758,6 +1006,18 @@ func hostile(r *rng.R, kind string, ascii bool) string {
 		}
 		return b64.EncodeToString(append(h, payload...))
 	case 10: // the other kind's cursor
+		if kind == "time" {
+			if r.Bool() {
+				s, _ := apifu.SerializeCursor(randInt(r))
+				return s
+			}
+			s, _ := apifu.SerializeCursor(randString(r, 10))
+			return s
+		}
+		if r.Chance(1, 3) {
+			s, _ := apifu.SerializeCursor(apifu.TimeBasedCursor{Nano: int64(randInt(r)), Id: randString(r, 5)})
+			return s
+		}
 		if kind == "int" {
 			s, _ := apifu.SerializeCursor(randString(r, 10))
 			return s
@@ -839,9 +1099,13 @@ func randomSet(r *rng.R, kind string, maxN int) []edgeT {
 	var es []edgeT
 	for len(es) < n {
 		var k interface{}
-		if kind == "int" {
+		switch kind {
+		case "int":
 			k = randInt(r)
-		} else {
+		case "time":
+			// few timestamps, so that several edges share one (ordered by Id then)
+			k = apifu.TimeBasedCursor{Nano: int64(r.Range(-3, 3)) * 1000, Id: randString(r, 2)}
+		default:
 			k = randString(r, 6)
 		}
 		if seen[k] {
@@ -855,6 +1119,25 @@ func randomSet(r *rng.R, kind string, maxN int) []edgeT {
 
 // a key that is (probably) not in the set, close to its members
 func foreignKey(r *rng.R, kind string, es []edgeT) interface{} {
+	if kind == "time" {
+		if len(es) > 0 && r.Chance(3, 4) {
+			c := rng.Pick(r, es).Key.(apifu.TimeBasedCursor)
+			switch r.Intn(4) {
+			case 0:
+				c.Nano += int64(rng.Pick(r, []int{-1, 1, -1000, 1000}))
+			case 1:
+				c.Id += string([]byte{byte(r.Intn(256))})
+			case 2:
+				if c.Id != "" {
+					c.Id = c.Id[:len(c.Id)-1]
+				}
+			default:
+				c.Id = randString(r, 2)
+			}
+			return c
+		}
+		return apifu.TimeBasedCursor{Nano: int64(r.Range(-4, 4)) * 1000, Id: randString(r, 2)}
+	}
 	if len(es) > 0 && r.Chance(3, 4) {
 		e := rng.Pick(r, es)
 		if kind == "int" {
@@ -918,7 +1201,16 @@ func randomCounts(r *rng.R, n int) (countArg, countArg) {
 var selections = []selection{fullSel, {true, false, true}, {true, false, false}, {false, true, false}, {false, false, true}, {true, true, false}, {false, true, true}}
 
 func allKeys(kind string) []apiKey {
-	return []apiKey{{kind, true, false}, {kind, true, true}, {kind, false, false}, {kind, false, true}}
+	return []apiKey{{kind: kind, all: true}, {kind: kind, all: true, promise: true}, {kind: kind}, {kind: kind, promise: true}}
+}
+
+// smallTimeSet: k edges with struct cursors, two edges per timestamp
+func smallTimeSet(k int) []edgeT {
+	es := smallSet(k)
+	for i := range es {
+		es[i].Key = apifu.TimeBasedCursor{Nano: int64(1000 * (i/2 + 1)), Id: fmt.Sprintf("k%02d", i)}
+	}
+	return es
 }
 
 func intp(i int) *int { return &i }
@@ -938,7 +1230,9 @@ func main() {
 			v := v
 			h.Case(func(*rng.R) sexp.Node { return codecCase(v) })
 		}
-		for _, n := range []int{0, 1, 2, 3, 31, 32, 33, 255, 256, 257, 65535, 65536} {
+		// string lengths around every msgpack header change and around MaxCursorLength (65536
+		// characters = 49152 bytes of msgpack = a string of 49149 bytes): beyond it SerializeCursor fails
+		for _, n := range []int{0, 1, 2, 3, 31, 32, 33, 255, 256, 257, 49148, 49149, 49150, 65535, 65536} {
 			n := n
 			h.Case(func(r *rng.R) sexp.Node {
 				b := make([]byte, n)
@@ -947,6 +1241,56 @@ func main() {
 				}
 				return codecCase(string(b))
 			})
+		}
+		for _, v := range ints {
+			v := v
+			h.Case(func(r *rng.R) sexp.Node { return codecCase(apifu.TimeBasedCursor{Nano: int64(v), Id: randString(r, 40)}) })
+		}
+		for _, n := range []int{0, 31, 32, 255, 256, 49125, 49126, 49127, 49128, 49129, 49130} {
+			n := n
+			h.Case(func(r *rng.R) sexp.Node {
+				return codecCase(apifu.TimeBasedCursor{Nano: int64(randInt(r)), Id: strings.Repeat("i", n)})
+			})
+		}
+
+		// ---- 1b. DeserializeCursor on every msgpack type code: every first byte 0x00-0xff, for every
+		// cursor type, alone / truncated / oversized length fields / nested / in skipped positions
+		for c := 0; c < 256; c++ {
+			for _, kind := range []string{"int", "str", "time"} {
+				for i := range codeProbes(byte(c)) {
+					c, kind, i := c, kind, i
+					if kind != "time" && i%5 != 0 {
+						continue // the wrapped variants only matter to the struct decoder
+					}
+					h.Case(func(*rng.R) sexp.Node { return decodeCase(kind, b64.EncodeToString(codeProbes(byte(c))[i])) })
+				}
+			}
+		}
+		// nesting: as deep as MaxCursorLength allows, and the string that used to kill the process
+		for _, d := range []int{1, 10, 1000, 20000, 49000, 49149, 49150, 100000, 6000000} {
+			for _, open := range []byte{0x91, 0x81} {
+				d, open := d, open
+				if d > 100000 && !h.Thorough() && open == 0x81 {
+					continue
+				}
+				h.Case(func(*rng.R) sexp.Node {
+					b := []byte{0x81, 0xa1, 'x'}
+					for i := 0; i < d; i++ {
+						b = append(b, open)
+						if open == 0x81 {
+							b = append(b, 0xc0)
+						}
+					}
+					b = append(b, 0xc0)
+					n := decodeCase("time", b64.EncodeToString(b))
+					if len(b) > 60000 {
+						// keep the case line small: the model only needs the length to reject it
+						return sexp.T("decode-long", sexp.T("kind", sexp.Sym("time")), sexp.T("length", sexp.Int(b64.EncodedLen(len(b)))),
+							sexp.T("result", realDecode("time", b64.EncodeToString(b))))
+					}
+					return n
+				})
+			}
 		}
 
 		// ---- 2. pagination.EdgesToReturn, exhaustively over small sets
@@ -993,7 +1337,7 @@ func main() {
 					// the literal null and the empty string both mean "no cursor"
 					cursors = append(cursors, cursorArg{mode: 1}, cursorArg{mode: 2, str: "", known: true})
 				}
-				for _, key := range []apiKey{{"int", true, promise}, {"int", false, promise}} {
+				for _, key := range []apiKey{{kind: "int", all: true, promise: promise}, {kind: "int", promise: promise}} {
 					for _, c := range counts {
 						for _, after := range cursors {
 							for _, before := range cursors {
@@ -1041,15 +1385,228 @@ func main() {
 			}
 		}
 
+		// ---- 4b. ConnectionConfig.Direction: forward-only and backward-only connections, every way of
+		// writing the four arguments (absent / null / value) over small sets
+		for _, dir := range []int{1, 2} {
+			for k := 0; k <= 3; k++ {
+				base := smallSet(k)
+				countForms := []countArg{{}, {mode: 1}, val(-1)}
+				for c := 0; c <= k+1; c++ {
+					countForms = append(countForms, val(c))
+				}
+				otherCount := []countArg{{}, {mode: 1}, val(1)}
+				cursors := []cursorArg{{}, {mode: 1}, {mode: 2, str: "", known: true}}
+				for c := 5; c <= 10*k+5; c += 5 {
+					cursors = append(cursors, cursorOf(c))
+				}
+				otherCursor := []cursorArg{{}, {mode: 1}, cursorOf(15)}
+				for _, key := range []apiKey{{kind: "int", all: true, dir: dir}, {kind: "int", dir: dir}, {kind: "int", dir: dir, promise: true}} {
+					for _, mine := range countForms {
+						for _, other := range otherCount {
+							for _, c := range cursors {
+								for _, oc := range otherCursor {
+									if other.mode != 0 && oc.mode != 0 && c.mode == 2 && c.str != "" {
+										continue // both foreign arguments at once: sampled by the cases with simple cursors
+									}
+									key, mine, other, c, oc := key, mine, other, c, oc
+									h.Case(func(r *rng.R) sexp.Node {
+										q := request{sel: fullSel}
+										if key.dir == 1 {
+											q.first, q.last, q.after, q.before = mine, other, c, oc
+										} else {
+											q.last, q.first, q.before, q.after = mine, other, c, oc
+										}
+										if r.Chance(1, 8) {
+											q.sel = rng.Pick(r, selections)
+										}
+										return connCase(setup{key: key, edges: shuffle(r, base), policy: r.Intn(5)}, q, r)
+									})
+								}
+							}
+						}
+					}
+				}
+			}
+		}
+		// walks over one-directional connections (the only direction they offer)
+		for _, dir := range []int{1, 2} {
+			for k := 0; k <= maxW; k++ {
+				for n := 1; n <= k+1; n++ {
+					for _, base := range allKeys("int") {
+						dir, k, n, key := dir, k, n, base
+						key.dir = dir
+						h.Case(func(r *rng.R) sexp.Node {
+							return walkCase(setup{key: key, edges: shuffle(r, smallSet(k)), policy: r.Intn(5)}, dir == 1, n, r)
+						})
+					}
+				}
+			}
+		}
+
+		// ---- 4c. struct cursors (apifu.TimeBasedCursor) through the generic Connection and through
+		// TimeBasedConnection (whose edge getter answers range queries directly, through promises, or
+		// some of each): requests over small sets, then walks with every page size
+		timeKeys := append(allKeys("time"), apiKey{kind: "time", timeconn: true}, apiKey{kind: "time", timeconn: true, promise: true})
+		for k := 0; k <= 4; k++ {
+			base := smallTimeSet(k)
+			var cursors []cursorArg
+			cursors = append(cursors, cursorArg{})
+			for _, e := range base {
+				c := e.Key.(apifu.TimeBasedCursor)
+				cursors = append(cursors, cursorOf(c), cursorOf(apifu.TimeBasedCursor{Nano: c.Nano, Id: c.Id + "x"}), cursorOf(apifu.TimeBasedCursor{Nano: c.Nano - 500, Id: c.Id}))
+			}
+			cursors = append(cursors, cursorOf(apifu.TimeBasedCursor{Nano: 99000, Id: ""}), cursorOf(apifu.TimeBasedCursor{}))
+			for _, key := range timeKeys {
+				for c := 0; c <= k+1; c++ {
+					for _, fwd := range []bool{true, false} {
+						for _, after := range cursors {
+							for _, before := range cursors {
+								if after.mode != 0 && before.mode != 0 && (k > 2 || c > 2) {
+									continue
+								}
+								key, c, fwd, after, before := key, c, fwd, after, before
+								h.Case(func(r *rng.R) sexp.Node {
+									q := request{after: after, before: before, sel: fullSel}
+									if fwd {
+										q.first = val(c)
+									} else {
+										q.last = val(c)
+									}
+									if c == 0 {
+										q.sel = rng.Pick(r, selections)
+									}
+									return connCase(setup{key: key, edges: shuffle(r, base), policy: r.Intn(5)}, q, r)
+								})
+							}
+						}
+					}
+				}
+			}
+		}
+		for k := 0; k <= maxW; k++ {
+			for n := 1; n <= k+1; n++ {
+				for _, key := range timeKeys {
+					for _, fwd := range []bool{true, false} {
+						k, n, key, fwd := k, n, key, fwd
+						h.Case(func(r *rng.R) sexp.Node {
+							return walkCase(setup{key: key, edges: shuffle(r, smallTimeSet(k)), policy: r.Intn(5)}, fwd, n, r)
+						})
+					}
+				}
+			}
+		}
+
+		// ---- 4d. SerializeCursor fails: (a) a cursor type msgpack cannot encode at all, (b) string
+		// cursors of which some exceed MaxCursorLength.  What the resolver does with the error (an
+		// error on the field, never a panic) is compared with the model.
+		for i := 0; i < 64; i++ {
+			key := allKeys("int")[i%4]
+			key.serFails = true
+			h.Case(func(r *rng.R) sexp.Node {
+				es := shuffle(r, smallSet(r.Intn(4)))
+				q := request{sel: rng.Pick(r, selections)}
+				if r.Bool() {
+					q.first = val(r.Intn(len(es) + 2))
+				} else {
+					q.last = val(r.Intn(len(es) + 2))
+				}
+				if r.Chance(1, 4) {
+					q.after = rng.Pick(r, []cursorArg{{mode: 1}, {mode: 2, str: "", known: true}})
+				}
+				return connCase(setup{key: key, edges: es, policy: r.Intn(5)}, q, r)
+			})
+		}
+		// every placement of unserialisable cursors among three edges (start / middle / end of the
+		// page), every count, forwards and backwards: the start cursor fails, only the end cursor
+		// fails, only an edge in the middle fails (visible only when its cursor is selected)
+		longKey := func(j int, long bool) string {
+			k := fmt.Sprintf("%c", 'a'+j)
+			if long {
+				k += strings.Repeat("L", 50000)
+			}
+			return k
+		}
+		for _, key := range []apiKey{{kind: "str", all: true}, {kind: "str", promise: true}} {
+			for pat := 1; pat < 8; pat++ {
+				if !h.Thorough() && pat != 1 && pat != 2 && pat != 4 {
+					continue // quick tier: exactly one unserialisable cursor (first / middle / last edge)
+				}
+				for c := 1; c <= 3; c++ {
+					for _, fwd := range []bool{true, false} {
+						for _, sel := range []selection{fullSel, {true, false, false}, {false, true, false}} {
+							key, pat, c, fwd, sel := key, pat, c, fwd, sel
+							if sel != fullSel && c == 2 {
+								continue
+							}
+							h.Case(func(r *rng.R) sexp.Node {
+								es := make([]edgeT, 3)
+								for j := range es {
+									es[j] = edgeT{Key: longKey(j, pat&(1<<uint(j)) != 0), Node: j}
+								}
+								q := request{sel: sel}
+								if fwd {
+									q.first = val(c)
+								} else {
+									q.last = val(c)
+								}
+								return connCase(setup{key: key, edges: shuffle(r, es), policy: r.Intn(5)}, q, r)
+							})
+						}
+					}
+				}
+			}
+		}
+		nLong := 4
+		if h.Thorough() {
+			nLong = 100
+		}
+		for i := 0; i < nLong; i++ {
+			key := allKeys("str")[i%4]
+			h.Case(func(r *rng.R) sexp.Node {
+				n := 3 + r.Intn(3)
+				es := make([]edgeT, n)
+				for j := range es {
+					es[j] = edgeT{Key: longKey(j, r.Chance(1, 3)), Node: j}
+				}
+				q := request{sel: rng.Pick(r, selections)}
+				if r.Bool() {
+					q.first = val(r.Intn(n + 2))
+				} else {
+					q.last = val(r.Intn(n + 2))
+				}
+				if r.Chance(1, 3) {
+					q.after = cursorOf(fmt.Sprintf("%c", 'a'+r.Intn(n)))
+				}
+				return connCase(setup{key: key, edges: shuffle(r, es), policy: r.Intn(5)}, q, r)
+			})
+		}
+
+		// ---- 4e. cost of a connection request (defaultConnectionCost + the edges multiplier), all three
+		// directions, every form of first / last, every selection
+		for dir := 0; dir < 3; dir++ {
+			forms := []countArg{{}, {mode: 1}, val(-3), val(0), val(1), val(2), val(7), val(1000), val(1<<31 - 1)}
+			for _, f := range forms {
+				for _, l := range forms {
+					for _, sel := range selections {
+						dir, f, l, sel := dir, f, l, sel
+						h.Case(func(*rng.R) sexp.Node { return costCase(dir, request{first: f, last: l, sel: sel}) })
+					}
+				}
+			}
+		}
+
 		// ---- 5. random streams
 		nRandom, nHostileConn, nDecode, nWalk, nDirect := 2500, 1500, 4000, 150, 1500
 		if h.Thorough() {
 			nRandom, nHostileConn, nDecode, nWalk, nDirect = 100000, 60000, 250000, 6000, 60000
 		}
-		kinds := []string{"int", "str"}
+		kinds := []string{"int", "str", "time"}
 		for i := 0; i < nRandom; i++ {
-			kind := kinds[i%2]
-			key := allKeys(kind)[(i/2)%4]
+			kind := kinds[i%3]
+			key := allKeys(kind)[(i/3)%4]
+			if kind == "time" && (i/12)%3 == 2 {
+				key = apiKey{kind: "time", timeconn: true, promise: (i/3)%2 == 1}
+			}
 			h.Case(func(r *rng.R) sexp.Node {
 				es := randomSet(r, kind, 12)
 				first, last := randomCounts(r, len(es))
@@ -1105,8 +1662,11 @@ func main() {
 			})
 		}
 		for i := 0; i < nHostileConn; i++ {
-			kind := kinds[i%2]
-			key := allKeys(kind)[(i/2)%4]
+			kind := kinds[i%3]
+			key := allKeys(kind)[(i/3)%4]
+			if kind == "time" && (i/12)%3 == 2 {
+				key = apiKey{kind: "time", timeconn: true, promise: (i/3)%2 == 1}
+			}
 			h.Case(func(r *rng.R) sexp.Node {
 				es := randomSet(r, kind, 6)
 				q := request{sel: fullSel}
@@ -1129,11 +1689,14 @@ func main() {
 			})
 		}
 		for i := 0; i < nDecode; i++ {
-			kind := kinds[i%2]
+			kind := kinds[i%3]
 			h.Case(func(r *rng.R) sexp.Node {
 				if r.Chance(1, 6) {
 					if kind == "int" {
 						return codecCase(randInt(r))
+					}
+					if kind == "time" {
+						return codecCase(apifu.TimeBasedCursor{Nano: int64(randInt(r)), Id: randString(r, 300)})
 					}
 					return codecCase(randString(r, 300))
 				}
@@ -1141,9 +1704,12 @@ func main() {
 			})
 		}
 		for i := 0; i < nWalk; i++ {
-			kind := kinds[i%2]
-			key := allKeys(kind)[(i/2)%4]
-			fwd := (i/8)%2 == 0
+			kind := kinds[i%3]
+			key := allKeys(kind)[(i/3)%4]
+			if kind == "time" && (i/12)%2 == 1 {
+				key = apiKey{kind: "time", timeconn: true, promise: (i/3)%2 == 1}
+			}
+			fwd := (i/24)%2 == 0
 			h.Case(func(r *rng.R) sexp.Node {
 				es := randomSet(r, kind, 24)
 				return walkCase(setup{key: key, edges: es, policy: r.Intn(5)}, fwd, 1+r.Intn(len(es)+2), r)
